@@ -47,15 +47,16 @@ CFG = {
                   "no operation panics; len/universe/get/predecessor/iteration equal the plain sequence; the cursor "
                   "invariant is established by cursor/cursor_from, preserved by every operation, and by induction "
                   "every finite operation history is observed (return value, current, index, is_exhausted) exactly "
-                  "as on the plain sequence. Side conditions, both exhibited as findings: the high-bit vector has at "
-                  "most 2^32 positions (implied by len <= 1 431 655 744; beyond it `global_pos as u32` truncates a "
-                  "select sample) and advance_by(k) does not overflow `idx + k` (len + k < 2^64). Tie: "
+                  "as on the plain sequence, for ALL operation lists and all arguments (advance_by saturates idx + k; "
+                  "the former wrap-around was repaired, see known_findings fixed list). One exact side condition "
+                  "(HighFits): the high-bit vector has at most 2^32 positions, implied by len <= 1 431 655 744; "
+                  "beyond it `global_pos as u32` truncates a select sample and get() is wrong - known finding F12. Tie: "
                   "SELECT_SAMPLE_RATE re-extracted from source each run and every operation diffed against the "
                   "compiled model on generated sequences and cursor histories.",
     "level_note": "Trusts the Lean kernel, the hand-written model's fidelity (checked differentially, with the "
                   "plain-sequence oracle also run in-process by the harness), the modelled core primitives "
                   "(count_ones, trailing_zeros, leading_zeros) and that select_in_word equals its spec (property C02). "
-                  "usize arithmetic other than advance_by's `idx + k` is modelled unbounded (all such values are "
+                  "usize arithmetic other than advance_by's saturating `idx + k` is modelled unbounded (all such values are "
                   "< 3*len + 64).",
     "technique": "Lean 4 proof (refinement invariant + induction over operation lists); differential correspondence vs compiled model",
     "variants": [{"features": []}],
@@ -71,7 +72,7 @@ CFG = {
         "build_total", "len_eq", "universe_eq", "get_eq", "predecessor_eq", "predecessor_none_iff",
         "predecessor_some", "iter_eq", "inv_init_cursor", "inv_init_cursor_from", "inv_out_step",
         "observe_eq", "cursor_history", "cursor_history_from", "cursor_history_generated",
-        "highFits_of_length", "advance_by_wraps")],
+        "highFits_of_length")],
     "generated": ["C03:"],
     "allow_bv_decide": False,
     "nontrivial": _c03_nontrivial,
